@@ -549,7 +549,9 @@ func main() {
 						novelSrc = novelSources[r.Intn(len(novelSources))]
 						novelV, _ = compileDump(novelSrc)
 					}
-					if novelCount%2 == 0 {
+					// (the engine is quadratic in the length of a run of loop passes: novel RUN texts stop growing after 700
+					// bytes — long sweeps then draw novel sources only)
+					if novelCount%2 == 0 || 257+2*novelCount > 700 {
 						// a SOURCE the process has never compiled: the keywords in a letter case drawn from the counter
 						// (whatever a first sighting of a spelling does to process-wide tables then happens concurrently)
 						tasks[g] = task{kind: kCompileNovel, prog: &program{Src: novelSpelling(novelCount)}}
